@@ -181,7 +181,8 @@ def run_check(mod, pid, tier, seed, t0, update_baseline):
         "sanity_not_provable": [{"name": r.name, "status": r.status} for r in res_sanity],
         "undecided": undecided_lines,
         "bounded": bundle.get("bounded", []),
-        "assumption_validation": [x for x in bundle.get("samples", []) if isinstance(x, dict) and "opt_theory_validation" in x],
+        "engine_crosscheck": bundle.get("engine_crosscheck", {}),
+        "assumption_validation": [x for x in bundle.get("samples", []) if isinstance(x, dict) and ("opt_theory_validation" in x or "resolve_and_templated_keys_contract_validation" in x)],
         "solver_seconds": round(sum(r.seconds for r in res_main), 2),
         "explanation": bundle.get("explanation", ""),
     }
